@@ -4,7 +4,7 @@
 package grpc
 
 // error formatting only: no effect on the modelled state (assumed); an error stays an error
-//@ func RepackGRPCErrorWithDetails
+//@ func RepackGRPCErrorWithDetails (err)
 //@   trusted
 //@   modifies nothing
 //@   ensures err != nil ==> result != nil
